@@ -183,10 +183,19 @@ func variants(root *node, fault string, s site) []string {
 	case "num":
 		return []string{"-1", "1e400", "99999999999999999999", "x", "1.5", "-0", "1e-400", "9223372036854775808", "-9223372036854775809", "0", "1e308", "0.1e1"}
 	case "deep":
-		return []string{"array:200", "object:200", "allOf:200", "oneOf:200", "addprops:200", "array:1000"}
+		return deepVariants
 	}
 	return nil
 }
+
+// deepVariants: the regular family is 40 deep (array/object nesting costs about
+// depth^3: 40 deep ≈ 0.3 s, 200 deep ≈ 25 s, 1000 deep ≈ 25-50 s until the depth
+// limit refuses it); allOf/oneOf nesting is cheap at any depth. The expensive
+// members are a separately labelled family (deepExpensive), a handful per run.
+var (
+	deepVariants  = []string{"array:40", "object:40", "allOf:40", "oneOf:40", "addprops:40", "allOf:1000", "oneOf:1000"}
+	deepExpensive = []string{"array:1000", "object:1000", "addprops:1000", "array:200"}
+)
 
 // applied is the result of putting one fault into a base tree.
 type applied struct {
@@ -259,11 +268,7 @@ func apply(base *node, fault, arg string, s site) (a applied, ok bool) {
 	if n.K == kStr && n.S != "" {
 		a.Names = append(a.Names, n.S)
 	}
-	for _, k := range []string{"name", "operationId", "propertyName"} {
-		if v := n.get(k); v != nil && v.K == kStr && v.S != "" {
-			a.Names = append(a.Names, v.S)
-		}
-	}
+	collectNames(n, keyOf(), &a.Names, 4000)
 
 	if s.Key {
 		if parent == nil || parent.K != kMap {
@@ -433,7 +438,7 @@ func apply(base *node, fault, arg string, s site) (a applied, ok bool) {
 		}
 	case "dupname":
 		switch {
-		case keyOf() == "operationId" && (parent == nil || true):
+		case keyOf() == "operationId":
 			other := findOther(root, "operationId", s.Path)
 			if other == nil {
 				// maybe a sequence item sibling
@@ -484,15 +489,54 @@ func apply(base *node, fault, arg string, s site) (a applied, ok bool) {
 			return a, false
 		}
 		set(deepSchema(arg))
-		if strings.HasSuffix(arg, ":1000") {
-			a.Label = "deep-1000"
-		} else {
-			a.Label = "deep-200"
-		}
+		a.Label = "deep-" + arg[strings.IndexByte(arg, ':')+1:]
 	default:
 		return a, false
 	}
 	return a, true
+}
+
+// nameHolders: maps whose keys are user-chosen names that other parts of the
+// document refer to by name.
+var nameHolders = map[string]bool{
+	"schemas": true, "responses": true, "parameters": true, "examples": true, "requestBodies": true, "headers": true,
+	"securitySchemes": true, "links": true, "callbacks": true, "pathItems": true, "properties": true, "variables": true,
+	"mapping": true, "scopes": true, "paths": true, "webhooks": true, "encoding": true,
+}
+
+// collectNames lists the names defined or used inside a (faulted) subtree:
+// keys of name-holding maps, name-like members, items of required/tags lists,
+// keys of security requirements.
+func collectNames(n *node, parentKey string, out *[]string, budget int) {
+	var walk func(n *node, parentKey, grandKey string)
+	walk = func(n *node, parentKey, grandKey string) {
+		if budget <= 0 || n == nil {
+			return
+		}
+		budget--
+		switch n.K {
+		case kMap:
+			for i, k := range n.Keys {
+				if nameHolders[parentKey] || grandKey == "security" {
+					*out = append(*out, k)
+				}
+				walk(n.Kids[i], k, parentKey)
+			}
+		case kSeq:
+			for _, k := range n.Kids {
+				walk(k, "", parentKey)
+			}
+		case kStr:
+			switch {
+			case n.S == "":
+			case parentKey == "name" || parentKey == "operationId" || parentKey == "propertyName" || parentKey == "operationRef":
+				*out = append(*out, n.S)
+			case parentKey == "" && (grandKey == "required" || grandKey == "tags"):
+				*out = append(*out, n.S)
+			}
+		}
+	}
+	walk(n, parentKey, "")
 }
 
 // dupFromSibling: the target is member `key` of an item of a sequence; copy the
